@@ -12,7 +12,14 @@ use std::process::{Child, Command, Stdio};
 use std::sync::Mutex;
 use std::time::{Duration, Instant};
 
-pub const VERIF_DIR: &str = "/verif";
+/// root of the verification tree (the directory that holds `check`, `evidence/`, `replays/`):
+/// derived from the executable's location <root>/harness/target/<profile>/vmon
+pub fn verif_dir() -> String {
+    std::env::current_exe()
+        .ok()
+        .and_then(|e| e.parent()?.parent()?.parent()?.parent().map(|p| p.to_string_lossy().to_string()))
+        .unwrap_or_else(|| "/verif".to_string())
+}
 
 // ------------------------------------------------------------------------------------
 // panic capture (worker side)
@@ -202,7 +209,7 @@ pub fn worker_main(args: &[String], case_fn: CaseFn) {
                 // write witness for violating cases of the checked property
                 let mut replay = Value::Null;
                 if c.viols.iter().any(|v| v.prop == ctx.prop) {
-                    let dir = format!("{}/replays/{}", VERIF_DIR, ctx.prop);
+                    let dir = format!("{}/replays/{}", verif_dir(), ctx.prop);
                     let _ = fs::create_dir_all(&dir);
                     let path = format!("{}/{}-{}-{}-{}.json", dir, ctx.tier, ctx.seed, ctx.variant, idx);
                     let w = json!({
@@ -390,7 +397,7 @@ pub struct Known {
 
 pub fn load_known() -> Known {
     let mut open = Vec::new();
-    if let Ok(s) = fs::read_to_string(format!("{}/KNOWN_FINDINGS.txt", VERIF_DIR)) {
+    if let Ok(s) = fs::read_to_string(format!("{}/KNOWN_FINDINGS.txt", verif_dir())) {
         for line in s.lines() {
             let line = line.trim();
             if let Some(rest) = line.strip_prefix("open:") {
@@ -428,7 +435,7 @@ pub fn run(spec: &RunSpec) -> i32 {
     }
     fs::create_dir_all(&run_dir).unwrap();
     // stale witnesses of earlier runs of this property/tier are removed
-    let replay_dir = PathBuf::from(format!("{}/replays/{}", VERIF_DIR, spec.prop));
+    let replay_dir = PathBuf::from(format!("{}/replays/{}", verif_dir(), spec.prop));
     if let Ok(rd) = fs::read_dir(&replay_dir) {
         for e in rd.flatten() {
             if e.file_name().to_string_lossy().starts_with(&format!("{}-", spec.tier)) {
@@ -610,7 +617,7 @@ fn record_crash(spec: &RunSpec, agg: &mut Agg, case: u64, variant: &str, what: &
     agg.evaluations += 1;
     if spec.crash_is_violation {
         let sig = what.to_string();
-        let dir = format!("{}/replays/{}", VERIF_DIR, spec.prop);
+        let dir = format!("{}/replays/{}", verif_dir(), spec.prop);
         let _ = fs::create_dir_all(&dir);
         let path = format!("{}/{}-{}-{}-{}.json", dir, spec.tier, spec.seed, variant, case);
         let w = json!({
@@ -711,9 +718,9 @@ fn finish(spec: &RunSpec, agg: Agg, t0: Instant, wall_exceeded: bool, run_dir: &
         "wall_s": (wall * 10.0).round() / 10.0,
         "violations": unlisted.len(),
     });
-    let _ = fs::create_dir_all(format!("{}/evidence", VERIF_DIR));
+    let _ = fs::create_dir_all(format!("{}/evidence", verif_dir()));
     fs::write(
-        format!("{}/evidence/{}.json", VERIF_DIR, spec.prop),
+        format!("{}/evidence/{}.json", verif_dir(), spec.prop),
         serde_json::to_string_pretty(&evidence).unwrap(),
     )
     .expect("write evidence");
